@@ -766,6 +766,10 @@ let run_phy_line (line : string) : string =
         | ["clrirq"] -> phy_step c clear_irq_127 unit_ok
         | ["irqstate"; m] -> phy_step c (get_irq_state_127 (irqmode_of m)) irqstate_str
         | ["procirq"; m; clr] -> phy_step c (process_irq_127 (irqmode_of m) (bool_of_tok clr)) irqstate_str
+        | ["dumpregs"] ->
+          (* the emulated register file 0x01..0x70 and the first 16 FIFO bytes, as the harness prints them *)
+          let sub l a n = List.filteri (fun i _ -> i >= a && i < a + n) l in
+          Printf.sprintf "regs=%s fifo=%s :: " (hex_of_bytes (sub !c.c_regs 1 0x70)) (hex_of_bytes (sub !c.c_buf 0 16))
         | _ -> "BADOP") in
       out := r :: !out end) (List.tl parts)
   with Phy_panic s -> out := s :: !out);
